@@ -13,4 +13,4 @@ Extraction "model.ml"
   align threshold idealNumThreads getThreadDistance plan
   ty_u64 ty_i64 ty_int checked exact eval
   nth_prime store_primes store_n_primes next_buffer addSievingPrime30 addSievingPrime210
-  get_sieve_size initAlgorithms set_sieve_size set_num_threads segments cross_small sieve_loop surviving byte_val erat_self decode_word nextPrime_ctz nextPrime_bruijn run_bytes.
+  get_sieve_size initAlgorithms set_sieve_size set_num_threads segments cross_small sieve_loop surviving byte_val erat_self decode_word nextPrime_ctz nextPrime_bruijn run_bytes decode_array pad8.
